@@ -1321,8 +1321,9 @@ static void DecodeBR(Word Code) {
             BrLong = True;
             Offset++;
         }
+        /* !addr is a 14-bit field: nothing beyond 3FFFH can be a branch target */
         AdrInt = EvalStrIntExpressionOffsWithResult(
-                &ArgStr[1], Offset, UInt16, &EvalResult);
+                &ArgStr[1], Offset, UInt14, &EvalResult);
         if (EvalResult.OK) {
             Dist = AdrInt - EProgCounter();
             if ((BrRel) || ((Dist <= 16) && (Dist >= -15) && (Dist != 0))) {
@@ -1386,8 +1387,9 @@ static void DecodeCALL(Word Code) {
     if (ChkArgCnt(1, 1)) {
         unsigned    BrLong = !!(*ArgStr[1].str.p_str == '!');
         tEvalResult EvalResult;
+        /* !addr is a 14-bit field */
         Integer     AdrInt = EvalStrIntExpressionOffsWithResult(
-                &ArgStr[1], BrLong, UInt16, &EvalResult);
+                &ArgStr[1], BrLong, UInt14, &EvalResult);
         if (mFirstPassUnknown(EvalResult.Flags)) {
             AdrInt &= 0x7ff;
         }
